@@ -1000,6 +1000,10 @@ def scenarios(rng: random.Random, thorough: bool) -> List[Tuple[str, Dict[str, A
           "threads": [[["Y", [["W", 0, [["r", T0], ["^"]]]]], ["r", T0], ["p"]],
                       [["W", 1, [["r", T0]]], ["p"]],
                       [["W", 0, [["W", 1, [["r", T0]]], ["r", T0]]], ["p"]]]}),
+        ("a5 inherit() by a worker that already holds a runtime (reused pool thread)",
+         {"kind": "ctx", "setup": [["g", T0, 1], ["n", 0, [[T0, 2]]]],
+          "threads": [[["W", 0, [["r", T0], ["r", T0]]], ["r", T0]],
+                      [["r", T0], ["p"], ["i", 1], ["r", T0], ["p"], ["h", 1, [[T0, 7]]], ["W", 1, [["r", T0]]], ["i", 1], ["r", T0]]]}),
         ("b1 two threads register on one Overloaded",
          {"kind": "reg", "via": "overloaded", "threads": [[[1, 10]], [[2, 20]]]}),
         ("b2 three threads Dataset.register",
@@ -1036,6 +1040,10 @@ def scenarios(rng: random.Random, thorough: bool) -> List[Tuple[str, Dict[str, A
         threads = [prog() + [["r", T0]] for _ in range(nthr)]
         if rng.random() < 0.5:
             threads[-1] = [["i", 1]] + threads[-1]
+        elif rng.random() < 0.6:
+            # inherit after the worker has already used (and so holds) a runtime of its own
+            pos = rng.randint(1, len(threads[-1]))
+            threads[-1] = threads[-1][:pos] + [["i", 1]] + threads[-1][pos:]
         out.append((f"a-random-{r}", {"kind": "ctx", "setup": setup, "threads": threads}))
     return out
 
